@@ -114,4 +114,11 @@ def hashNonce (sha : Str → Str) : Option Str → Str
 def checkNonce (sha : Str → Str) (nonce : Option Str) (hashed : Str) : Bool :=
   decide (hashNonce sha nonce = hashed)
 
+/-- `GenerateCodeChallenge(method, codeVerifier)`: `plain` ↦ the verifier itself, `S256` ↦
+    unpadded URL base64 of SHA-256(verifier), anything else is an error (`none`). -/
+def codeChallenge (sha : Str → Str) (method verifier : Str) : Option Str :=
+  if method = "plain".toList then some verifier
+  else if method = "S256".toList then some (b64Encode true false (sha verifier))
+  else none
+
 end O2P
